@@ -239,25 +239,40 @@ func checkC18(c *Ctx, r *Report) {
 		}
 	}
 	r.check(pos["Dump"] > 0 && pos["Dump"] < pos["Execute"], "wiring", "dump-before-execute", "Dump precedes Execute", "run must dump the program before executing it", c.pos(run.Pos()))
-	// result printing
+	// result printing: on the path where every call succeeds, run prints to standard output exactly twice when the
+	// result flag is set — after Execute — and not at all otherwise
 	okResult := false
-	ast.Inspect(run.Body, func(n ast.Node) bool {
-		ifs, ok := n.(*ast.IfStmt)
-		if !ok || !strings.HasSuffix(c.fieldPath(ifs.Cond), ".result") {
-			return true
-		}
-		nPrint := 0
-		for _, s := range ifs.Body.List {
-			if es, ok := s.(*ast.ExprStmt); ok {
-				if call, ok := es.X.(*ast.CallExpr); ok && c.calleeName(call) == "fmt.Printf" {
-					nPrint++
+	resDesc := ""
+	{
+		count := func(result bool) (n int, afterExec bool, paths int) {
+			outs, _ := c.cliInterp(run, cliOpts{fields: map[string]Value{"result": constV(constant.MakeBool(result))}, happy: true})
+			afterExec = true
+			for _, o := range outs {
+				if o.Result != "ok" {
+					continue
+				}
+				paths++
+				k := 0
+				for _, e := range o.Events {
+					if strings.HasPrefix(e, "print:Stdout") {
+						k++
+					}
+				}
+				if k > n {
+					n = k
+				}
+				if k != n {
+					afterExec = false // paths disagree
 				}
 			}
+			return
 		}
-		okResult = nPrint == 2 && len(ifs.Body.List) == 2
-		return true
-	})
-	r.check(okResult, "wiring", "result", "if a.result { Printf(result); Printf(binding) }", "under the result flag run must print the blocks and the binding with fmt.Printf, nothing else", c.pos(run.Pos()))
+		nT, sameT, pT := count(true)
+		nF, sameF, pF := count(false)
+		okResult = nT == 2 && nF == 0 && sameT && sameF && pT > 0 && pF > 0
+		resDesc = fmt.Sprintf("with the flag: %d prints on %d successful paths; without: %d prints on %d paths", nT, pT, nF, pF)
+	}
+	r.check(okResult, "wiring", "result", "if a.result { Printf(result); Printf(binding) }", "under the result flag run must print the blocks and the binding (two prints to standard output), and nothing without it: "+resDesc, c.pos(run.Pos()))
 
 	// ---- exit codes and streams
 	r.rule("exit-codes", 4, "main: usage error -> die(2), help -> usage on stdout and exit 0, run error -> die(1); die prints the error to standard error and exits with its argument")
